@@ -548,6 +548,15 @@ impl World {
 
     /// Injects a PUBLISH. `subids` are carried as Subscription Identifier properties.
     pub fn in_publish(&mut self, qos: u8, id: u16, dup: bool, subids: &[u32], retain: bool) {
+        self.in_publish_full(qos, id, dup, subids, retain, None)
+    }
+
+    /// PUBLISH with a payload of exactly `size` bytes (marker first, then filler).
+    pub fn in_publish_sized(&mut self, qos: u8, id: u16, dup: bool, subids: &[u32], size: usize) {
+        self.in_publish_full(qos, id, dup, subids, false, Some(size))
+    }
+
+    pub fn in_publish_full(&mut self, qos: u8, id: u16, dup: bool, subids: &[u32], retain: bool, size: Option<usize>) {
         let k = self.inbound_seq;
         self.inbound_seq += 1;
         let mut props = Vec::new();
@@ -555,7 +564,13 @@ impl World {
             props.push(Prop::var(11, *s));
         }
         let topic = format!("i/{k}");
-        let payload = format!("m{k}").into_bytes();
+        let mut payload = format!("m{k}").into_bytes();
+        if let Some(sz) = size {
+            payload.resize(sz, b'.');
+            for (j, b) in payload.iter_mut().enumerate().skip(8) {
+                *b = (j as u8).wrapping_mul(31).wrapping_add(k as u8);
+            }
+        }
         let p = rc::Publish { dup, qos, retain, topic: topic.clone(), id: if qos > 0 { Some(id) } else { None }, props, payload: payload.clone() };
         let item = MsgSum {
             dup,
@@ -1013,6 +1028,9 @@ impl World {
         }
         if let Some(s) = self.sim.stalled() {
             self.viol(P_STALL, "stall/unread-input".into(), s);
+            // everything downstream of a stall is a consequence of it
+            self.blind = true;
+            return;
         }
         let serving = self.ctx_serving();
         let writer_stalled = self.sim.writer.0.borrow().stalled;
